@@ -1551,10 +1551,13 @@ func (w *envelopingWriter) handleTrailer() error {
 	}
 	defer w.rw.op.bufferPool.Put(data)
 	w.mustReleaseCurrent = false
+	w.current = nil // the buffer is returned to the pool when this method returns
 	if w.trailerIsCompressed && data.Len() > 0 {
 		uncompressed := w.rw.op.bufferPool.Get()
 		defer w.rw.op.bufferPool.Put(uncompressed)
 		if err := w.rw.op.server.respCompression.decompress(uncompressed, data); err != nil {
+			w.rw.reportError(err)
+			w.err = err
 			return err
 		}
 		data = uncompressed
@@ -1562,6 +1565,7 @@ func (w *envelopingWriter) handleTrailer() error {
 	end, err := w.rw.op.serverEnveloper.decodeEndFromMessage(w.rw.op, data)
 	if err != nil {
 		w.rw.reportError(err)
+		w.err = err
 		return err
 	}
 	end.wasCompressed = w.trailerIsCompressed
